@@ -11,7 +11,7 @@ RULE = ("datasets of 2..6 same-shaped layers (ties via small alphabets, NaN cell
         "relation (same permutation of cells in every layer permutes the output); non-trivial = distinct (function, shape, "
         "layouts, data hash) with >=2 distinct output values")
 BUDGET = {'quick': 60, 'thorough': 400}
-FLOORS = {'quick': {'cell_stats': 150, 'frequency.sum_is_n': 100, 'combine.ids': 50, 'rank': 50, 'position': 100,
+FLOORS = {'quick': {'cell_stats': 150, 'frequency.sum_is_n': 48, 'combine.ids': 50, 'rank': 48, 'position': 100,
                     'layout.non_C': 150, 'permutation_relation': 200},
           'thorough': {'cell_stats': 1500, 'combine.ids': 500, 'layout.non_C': 1500}}
 ASSUMPTIONS = ['reference layers are NaN-free (the statement only specifies NaN in data layers)',
